@@ -38,6 +38,8 @@ def _build_vssmon(work, variant='asan'):
 
 VARIANT_FLAGS = {'ndebug': ['-O2', '-g', '-DNDEBUG'],            # CMAKE_BUILD_TYPE=Release/RelWithDebInfo: assert() compiled out
                  'unsigned-char': ['-O2', '-g', '-funsigned-char'],  # plain char is unsigned on ARM/AArch64/PowerPC Linux targets
+                 'Os': ['-Os', '-g'],                                 # size optimisation (__OPTIMIZE_SIZE__ paths)
+                 'march-native': ['-O2', '-g', '-march=native'],     # whatever vector extensions this machine has (SSSE3/AVX2 fast paths)
                  'clang-O2': ['-O2', '-g']}
 _cfg = {}
 _cfg_lock = __import__('threading').Lock()
@@ -61,7 +63,7 @@ def build_variant(work, base, sources, v):
         return _cfg[key]
 
 
-def config_variants(obs, work, base, sources, jobs, seed, variants=('ilp32', 'ndebug', 'unsigned-char', 'msan')):
+def config_variants(obs, work, base, sources, jobs, seed, variants=('ilp32', 'ndebug', 'unsigned-char', 'Os', 'march-native', 'msan')):
     """The same monitor in other build configurations a user may choose: freestanding 32-bit (size_t, pointers and long are
     32 bits wide), -DNDEBUG, unsigned plain char, and under clang MemorySanitizer."""
     bins = vlib.run_parallel(lambda v: (v, build_variant(work, base, sources, v)), variants, workers=len(variants))
@@ -163,7 +165,7 @@ def c07(tier, seed):
                         'random <= 5000, 65533} x values (scalars: extremes, byte-lane markers, NaN payloads, +-0, subnormals, '
                         'infinities; strings/arrays of length classes 0,1,2,3,13,255..257, random, maximum whole-element count); header '
                         'fields, SetVssPath and SetVssData each followed by a whole-arena comparison with the reference encoding; a quarter of the '
-                        'corpus again in an unoptimised gcc -O0 build and a few thousand messages in freestanding 32-bit (ILP32), -DNDEBUG, -funsigned-char and clang MemorySanitizer builds.  '
+                        'corpus again in an unoptimised gcc -O0 build and a few thousand messages in freestanding 32-bit (ILP32), -DNDEBUG, -funsigned-char, -Os, -march=native and clang MemorySanitizer builds.  '
                         'Non-trivial: a value of non-zero encoded size was written and matched, or a reserved mode wrote nothing.' % N + gnote)
         return vlib.finish('C07', 'exploration', tier, seed, obs, cov, ASSUME, t0, min_evals=20000)
     finally:
@@ -191,7 +193,7 @@ def c08(tier, seed):
                         'values bit-exact, two-call protocol for the 13 variable-length types (length query writes only the length, '
                         'copy phase writes exactly the reported bytes into an exact-extent destination, elements bit-exact).  Result '
                         'objects live in an arena and are compared with a typed model.  An eighth of the corpus again in a gcc -O0 build, '
-                        'a few thousand messages in freestanding 32-bit (ILP32), -DNDEBUG, -funsigned-char and clang MemorySanitizer builds.  Each message counts once as non-trivial.' % N + gnote)
+                        'a few thousand messages in freestanding 32-bit (ILP32), -DNDEBUG, -funsigned-char, -Os, -march=native and clang MemorySanitizer builds.  Each message counts once as non-trivial.' % N + gnote)
         return vlib.finish('C08', 'exploration', tier, seed, obs, cov, ASSUME, t0, min_evals=20000)
     finally:
         work.cleanup()
@@ -224,7 +226,7 @@ def c09(tier, seed):
                         'ceil(n/4), pad field = (4-n%%4)%%4, bytes [n, n+pad) zero, nothing else); every length also on messages just built by the encoder (datatype, path and value lengths that add up; 0..2 application bytes behind), in a buffer of exactly the padded size in front of an inaccessible page and, under ASan, in an exact-size heap block (nothing behind the pad bytes may be touched, not even rewritten with the same value); all 512 length values through the '
                         'dedicated setter/getter vs the generic accessors on 3 backgrounds.  distinct_nontrivial = distinct lengths + '
                         'distinct length-field values.  '
-                        'The same sweep (3 backgrounds, 2-4 offsets) in freestanding 32-bit (ILP32), -DNDEBUG, -funsigned-char and clang MemorySanitizer builds.' % (R - 2, len(jobs)) + gnote)
+                        'The same sweep (3 backgrounds, 2-4 offsets) in freestanding 32-bit (ILP32), -DNDEBUG, -funsigned-char, -Os, -march=native and clang MemorySanitizer builds.' % (R - 2, len(jobs)) + gnote)
         return vlib.finish('C09', 'exploration', tier, seed, obs, cov, ASSUME[1:3], t0, min_evals=10000)
     finally:
         work.cleanup()
@@ -248,7 +250,7 @@ def c10(tier, seed):
                         'and compared with the reference concatenation; counted; unpacked from an exact-extent copy of the reference '
                         'packing with requested counts {0, n-1, n, n+1, n+7, n+8} in lengths-only and copy phases (exact-extent '
                         'destinations); string objects and the pointer array live in an arena (objects beyond the packed count must '
-                        'stay untouched); a few hundred lists in freestanding 32-bit (ILP32), -DNDEBUG, -funsigned-char and clang MemorySanitizer builds.  Each list counts once as non-trivial.' % N + gnote)
+                        'stay untouched); a few hundred lists in freestanding 32-bit (ILP32), -DNDEBUG, -funsigned-char, -Os, -march=native and clang MemorySanitizer builds.  Each list counts once as non-trivial.' % N + gnote)
         return vlib.finish('C10', 'exploration', tier, seed, obs, cov, ASSUME, t0, min_evals=20000)
     finally:
         work.cleanup()
